@@ -873,6 +873,27 @@ func genC10id(g *G) {
 	} {
 		fixed("", "", t.body, t.params, "", t.phstr)
 	}
+	// placeholder names of camelCase identifiers by the official rule (BaseUtils.convertToUpperUnderscore: strip
+	// leading/trailing underscores, collapse runs of them, insert '_' at EVERY word boundary found on the string as
+	// it stands - letter|Upper+lower, letter|digit, digit|letter - by look-around, then upper-case), computed here
+	idents := []string{"timeToLive", "numOfItems", "isMyId", "aBcDe", "userID2name", "fooBar", "fooBarBaz", "aB", "aBc", "xY1z", "a1b2c3", "HTMLParser", "parseHTML5Doc", "getXAndY", "iPhone6sPlus", "x", "URL", "myURLIsOk", "a_bC_dE", "__leading_", "aaBbCc", "oneTwoThreeFourFive", "i18nKey", "is2ndTry", "toA"}
+	for i := 0; i < 40; i++ {
+		var sb strings.Builder
+		for k, n := 0, 2+g.R.Intn(5); k < n; k++ {
+			w := []string{"a", "to", "is", "my", "id", "of", "url", "item", "x", "html", "ok"}[g.R.Intn(11)]
+			if k > 0 {
+				w = strings.ToUpper(w[:1]) + w[1:]
+			}
+			sb.WriteString(w)
+			if g.R.Intn(5) == 0 {
+				sb.WriteString(strconv.Itoa(g.R.Intn(30)))
+			}
+		}
+		idents = append(idents, sb.String())
+	}
+	for _, id := range idents {
+		fixed("", "", "{$"+id+"}", []string{id}, "", "{"+officialUpperUnderscore(id)+"}")
+	}
 
 	n := g.N(10000, 150000)
 	skipped := 0
@@ -918,4 +939,27 @@ func genC10id(g *G) {
 		// the generator is supposed to produce compilable files; make a broken generator visible
 		g.Add(Case{Req: req("msgid", "-", "-", "-", "0", "0"), Class: "generator-broken: " + itoa(skipped) + " of " + itoa(n) + " files rejected", Note: "generator"})
 	}
+}
+
+// officialUpperUnderscore: the naming rule of the reference implementation, boundaries by look-around.
+func officialUpperUnderscore(s string) string {
+	s = strings.Trim(s, "_")
+	for strings.Contains(s, "__") {
+		s = strings.ReplaceAll(s, "__", "_")
+	}
+	isL := func(b byte) bool { return b >= 'a' && b <= 'z' || b >= 'A' && b <= 'Z' }
+	isU := func(b byte) bool { return b >= 'A' && b <= 'Z' }
+	isLo := func(b byte) bool { return b >= 'a' && b <= 'z' }
+	isD := func(b byte) bool { return b >= '0' && b <= '9' }
+	var b strings.Builder
+	for i := 0; i < len(s); i++ {
+		if i > 0 {
+			p, c := s[i-1], s[i]
+			if isL(p) && isU(c) && i+1 < len(s) && isLo(s[i+1]) || isL(p) && isD(c) || isD(p) && isL(c) {
+				b.WriteByte('_')
+			}
+		}
+		b.WriteByte(s[i])
+	}
+	return strings.ToUpper(b.String())
 }
